@@ -83,28 +83,33 @@ impl Manifest {
 
     // looks for foo.aelys.toml or aelys.toml in same dir
     pub fn for_source_file(source_path: &Path) -> Option<Self> {
+        Self::find_for_source_file(source_path).ok().flatten()
+    }
+
+    // Same lookup, but a manifest that is there and cannot be read or parsed is an error:
+    // treating it as "no manifest" would silently drop every policy it declares.
+    pub fn find_for_source_file(source_path: &Path) -> Result<Option<Self>, ManifestError> {
         // Try {filename}.aelys.toml
         let mut manifest_path = source_path.to_path_buf();
-        let filename = source_path.file_name()?.to_string_lossy();
+        let Some(filename) = source_path.file_name() else {
+            return Ok(None);
+        };
+        let filename = filename.to_string_lossy();
         manifest_path.set_file_name(format!("{}.toml", filename));
 
-        if manifest_path.exists()
-            && let Ok(manifest) = Self::from_file(&manifest_path)
-        {
-            return Some(manifest);
+        if manifest_path.exists() {
+            return Self::from_file(&manifest_path).map(Some);
         }
 
         // Try aelys.toml in the same directory (project manifest)
         if let Some(parent) = source_path.parent() {
             let project_manifest = parent.join("aelys.toml");
-            if project_manifest.exists()
-                && let Ok(manifest) = Self::from_file(&project_manifest)
-            {
-                return Some(manifest);
+            if project_manifest.exists() {
+                return Self::from_file(&project_manifest).map(Some);
             }
         }
 
-        None
+        Ok(None)
     }
 
     pub fn module(&self, name: &str) -> Option<&ModulePolicy> {
